@@ -118,15 +118,19 @@ class World:
             if isinstance(node, ast.FunctionDef):
                 self.funcs[n] = node
         keep = {FMOD + "." + n for n in list(self.funcs) + list(KERNELS)}
-        identity = {"numpy.asarray", "numpy.expand_dims"}
+        identity = {"numpy.asarray", "numpy.expand_dims", "numpy.reshape"}
         self.identity_note = []
         sym = repo.resolve_name(self.fmod, "check_series")
         if sym is not None and sym.kind == "func" and self.cf.is_identity(sym.module, sym.target):
             self.identity_note.append(sym.dotted)
         self.ex_shape = S.SymExec(repo, identity={"numpy.asarray"})  # nothing inlined, shape-changing calls kept
         self.ex = MetricExec(repo, identity=identity, transfers={CHECK_REG: _check_reg_targets},
-                            keep=lambda d: d in keep, inline_modules={FMOD}, identity_pred=self.cf.is_identity)
-        self.ex_plain = S.SymExec(repo, identity=identity, identity_pred=self.cf.is_identity)
+                            keep=lambda d: d in keep, inline_modules={FMOD}, identity_pred=self.cf.is_identity, drop_reshape=True)
+        # shape level: same executor, but reshapes / expand_dims / x[:, None] are kept in the terms
+        self.ex_pub_shape = MetricExec(repo, identity={"numpy.asarray"}, transfers={CHECK_REG: _check_reg_targets},
+                                       keep=lambda d: d in keep, inline_modules={FMOD}, identity_pred=self.cf.is_identity)
+        self._shape_paths = {}
+        self.ex_plain = S.SymExec(repo, identity=identity, identity_pred=self.cf.is_identity, drop_reshape=True)
         self.eps = self.ex.module_const(self.fmod, "EPS")
         self.base = repo.cls(CL + ":_MetricFunctionWrapper")
         self._paths = {}
@@ -136,6 +140,11 @@ class World:
             fn = fn or self.repo.func(FN, name)
             self._paths[name] = self.ex.run(self.fmod, fn, args)
         return self._paths[name]
+
+    def shape_paths(self, name, fn):
+        if name not in self._shape_paths:
+            self._shape_paths[name] = self.ex_pub_shape.run(self.fmod, fn)
+        return self._shape_paths[name]
 
     def sig(self, fn, module=None):
         return self.ex.signature(module or self.fmod, fn)
@@ -896,7 +905,12 @@ def check_direct(ctx, w, name, fn, agg, toks, normal, params, loc):
         if tag == "weighted":
             # R3: the per-row weights meet the (n, k) error matrix along the horizon axis (exact shapes, numpy broadcasting)
             items = []
-            for p, sh in sel:
+            try:
+                spaths = [q for q in w.shape_paths(name, fn) if q.outcome == "return" and q.cond(A_HW_NONE) in (None, False)]
+            except Undecidable as e:
+                spaths = []
+                items.append((None, str(e)))
+            for p in spaths:
                 env = {HW: ("n",)}
                 for role in (YT, YP, YB):
                     if ("rank2", role) in p.effects:
@@ -1250,10 +1264,11 @@ def rule_r6(ctx, w):
     x, sw, ax = P("x"), P("sample_weight"), P("axis")
     want = call(F("numpy.exp"), x=mk_prod([call(F("numpy.sum"), a=mk_prod([sw, call(F("numpy.log"), x=x)]), axis=ax)],
                                            [call(F("numpy.sum"), a=sw, axis=ax)]))
+    want2 = call(F("numpy.exp"), x=call(F("numpy.average"), a=call(F("numpy.log"), x=x), weights=sw, axis=ax))
     try:
         paths = [p for p in w.ex.run(w.fmod, fn) if p.outcome != "raise"]
         _all(ctx, "R6", "_weighted_geometric_mean:value",
-             [(p.outcome == "return" and p.value == want, "weighted geometric mean is %s, expected exp(sum(w*log x)/sum(w))"
+             [(p.outcome == "return" and p.value in (want, want2), "weighted geometric mean is %s, expected exp(sum(w*log x)/sum(w))"
                % (show(p.value)[:200] if p.value else p.outcome)) for p in paths], "exp(sum(w*log x)/sum(w))", loc)
     except Undecidable as e:
         ctx.undecided("R6", "_weighted_geometric_mean:value", str(e), loc)
@@ -1290,7 +1305,7 @@ def run(ctx):
     # floors: instance counts confirmed by hand on commit 132f3d5 (18 functions, 18 classes, 4 kernels)
     ctx.floor("R1", 91)   # 18 defined + 18 class bindings + 18 wrapped-once + 37 package exports
     ctx.floor("R2", 215)  # 18 classes x (returns-func, roles, kw-exists, required, stored, default, forward, attr-written) + protocol
-    ctx.floor("R3", 100)  # 10 direct x (3 multioutput + 2 horizon_weight + kernel calls) + 3 delegates x 3 + 4 scaled x 3 + 4
+    ctx.floor("R3", 110)  # 10 direct x (3 multioutput + 2 horizon_weight + kernel calls) + 3 delegates x 3 + 4 scaled x 3 + 4
     ctx.floor("R4", 10)   # the 10 functions that aggregate themselves (7 of them with separate weighted / unweighted code)
     ctx.floor("R5", 120)
     ctx.floor("R6", 17)
